@@ -282,7 +282,7 @@ func init() {
 	})
 	// for-in with a mutating body (family forin-mutate): otto ranges over the live propertyOrder slice
 	engine.RegisterSignature("c07-forin-live-order", func(m *engine.Mismatch) bool {
-		return m.Aux != nil && m.Aux["part"] == "forin-mutate" && m.Aux["alt"] != "" && m.Aux["alt"] == m.Aux["visited"]
+		return m.Aux != nil && m.Aux["part"] == "forin-mutate" && m.Aux["alt"] != "" && (m.Aux["alt"] == m.Aux["visited"] || m.Aux["alt0"] == m.Aux["visited"])
 	})
 }
 
